@@ -196,7 +196,7 @@ def judge(ctx, world, desc, calls, ex, sig, follow=True, extra_follow=()):
     try:
         if ex.deadlock and getattr(ex, "livelock", False):
             spinning = [(i, p) for i, st_, w, p in ex.deadlock if st_ == "spinning"]
-            ctx.violation("call-never-returns", f"{desc}: after {sched.MAX_STEPS} scheduling points the calls of threads {spinning} "
+            ctx.violation("call-never-returns", f"{desc}: after more than {sched.MAX_STEPS} scheduling points the calls of threads {spinning} "
                           f"(thread, pending operation) still run - they repeat the same operations for ever; outcomes of the "
                           f"others: {ex.outcomes}", dict(sig, failure="livelock"))
             return
